@@ -179,6 +179,12 @@ Definition C13_restart_repairs_storage_todo : Prop :=
     step (run_state step init_state ops) (ORestart mr) = (st', o) -> o_res o = ROk -> st_live st' = Some m ->
     s_rules (st_store st') = map_vals sv (c_rules (m_conf m)).
 
+(* a failed Initialize retried on the same manager is a fresh start (fix 7c6ce3c): the earlier attempt leaves
+   nothing behind in the manager; what it may have done to the storage are loadRules' repairs *)
+Theorem C13_retried_initialize_is_a_fresh_start :
+  forall st mr, step st (OInitAgain mr) = step st (ORestart mr).
+Proof. reflexivity. Qed.
+
 (* ---------- Part 4: concurrency ---------- *)
 (* every public method of RuleManager is one section under m's mutex (exclusive for Initialize, the updates and
    SetKeyType; shared and assignment-free for the readers); what runs before the lock only validates the
